@@ -232,6 +232,7 @@ class Unit:
         for it in self.items:
             if it[0] == 'global':
                 needed.update(it[1])
+        needed.update(n for n in lw.globals_soft if n in consts)
         out.append('/* ---- file-scope constants from /repo headers ---- */')
         for n in sorted(needed):
             if n in statics_emitted:
